@@ -309,6 +309,17 @@ func (c *converter) trackAddedIngress() {
 				}
 			}
 		}
+		if port == 0 {
+			// hostnames and acme storages are also referenced by the tls attribute
+			for _, tls := range ing.Spec.TLS {
+				for _, hostname := range tls.Hosts {
+					c.tracker.TrackNames(convtypes.ResourceIngress, name, convtypes.ResourceHAHostname, hostname)
+				}
+				if tls.SecretName != "" {
+					c.tracker.TrackNames(convtypes.ResourceIngress, name, convtypes.ResourceAcmeData, ing.Namespace+"/"+tls.SecretName)
+				}
+			}
+		}
 	}
 }
 
